@@ -501,6 +501,24 @@ func check(c cfg, r *run, outcomes map[string]struct{}) func(*vsched.Exec, vsche
 				}
 			}
 		}
+		// socket backends: a request completed without an error was written to the peer - there are at least as many accepted
+		// writes as such completions (every request of these configurations has something to send)
+		if (strings.HasPrefix(c.Kind, "graphite") || strings.HasPrefix(c.Kind, "statsdaemon")) && c.Series > 0 && r.b != nil && !r.cancelled { // (a cancelled request may be completed without an error: cancellation is not a transport failure)
+			okCompletions, okWrites := 0, 0
+			for _, cb := range r.cbs {
+				if nonNil(cb.errs) == 0 {
+					okCompletions++
+				}
+			}
+			for _, ok := range r.b.Env.Net.WriteOK {
+				if ok {
+					okWrites++
+				}
+			}
+			if okCompletions > okWrites {
+				return "completed-without-sending", fmt.Sprintf("%s: %d flush requests were completed without an error, the peer accepted %d writes (faults %v, cancelled %v)", c.Kind, okCompletions, okWrites, r.faults, r.cancelled)
+			}
+		}
 		if r.issued < c.Requests {
 			return "flusher-stuck", fmt.Sprintf("%s: only %d of %d flush requests were issued", c.Kind, r.issued, c.Requests)
 		}
